@@ -44,23 +44,27 @@ REQUIRED_THEOREMS = [
     "C12_scheduler_once_per_epoch", "C12_callbacks_container", "C12_batches_per_epoch", "C12_fit_args", "C12_session_stopped",
     "C12_protocol_no_batches", "C12_stop_at_epoch_start_no_batches", "C12_stop_at_train_start_no_batches",
     "C12_scheduler_once_per_epoch_no_batches", "C12_fit_args_no_rows", "C12_lambda_init", "C12_lambda_dispatch",
+    "C12_fit_args_abort",
 ]
 RULE = ("case = session on one state object (kind) of 1..3 consecutive fit calls, each call = (starting_epoch, epochs, N, "
         "pos_batch_size, neg_batch_size in {None, 0, < pos, = pos, > pos, >= N}, data container form (tensor dtypes, non-contiguous "
-        "views, ndarray, list, tuple), callback identity list, callbacks container in {None, list, tuple, CallbackList, iterator} "
+        "views, ndarray, list, tuple), callback identity list, callbacks container in {None, list, tuple, CallbackList, CallbackList built by append/insert/+/__setitem__, iterator} "
         "(possibly empty; possibly the same container object as in the previous call), LambdaCallback/subclass mix, time flag, "
         "scheduler flag, flag assignment before the call (none / True / False), injected stop requests (callback identity, event) "
         "/ (during batch e,b), incl. periodic requests (every p-th epoch end / batch end)); epochs-starting_epoch in -2..3, N/batch "
-        "sizes giving 1..4 batches (incl. N < batch, N not divisible by pos or neg), 0..3 callbacks (an object may be listed "
+        "sizes giving 1..4 batches (incl. N = 1, N < batch, N not divisible by pos or neg), 0..3 callbacks (an object may be listed "
         "twice); thorough injects a stop at every event and every batch of the unstopped single call, quick a seeded subset; "
         "callback objects = LambdaCallback given a SUBSET of the six handlers (each handler a plain / defaulted-parameter / var-args "
         "function) or CallbackBase subclass overriding a subset of the methods; stop raised before the update (wrapped "
         "compute_batch_gradients) or after it (inside optimizer.step); N = 0 (no batches; positive state, neg = pos); plus a constructor "
         "stream: LambdaCallback(six arguments each None / callable with 0..4 parameters in 9 callable forms / non-callable) with the "
-        "expected outcome from the parameter count BY CONSTRUCTION; integer options (epochs, pos/neg_batch_size, k in 1..2, starting_epoch, "
-        "constructor sizes) as Python int / np.int64 / np.int32 / np.intp / np.uint8 / 0-d ndarray / 0-d tensor from the case's seeded stream "
+        "parameter count known BY CONSTRUCTION (accepted objects are judged by what their handlers run; rejection / exception type only counted); "
+        "integer options (epochs, pos/neg_batch_size, k in 1..2, starting_epoch, constructor sizes) as Python int / np.int64 / np.int32 / np.intp / "
+        "0-d ndarray / 0-d tensor (np.uint8 for k and the constructor sizes only) from the case's seeded stream "
         "(`iseed`), the same object again in a later call of the session when the value recurs; `time`, `progbar` (both truth values), `gpu` as "
         "bool / int / np.bool_ / numpy comparison result / 0-d ndarray / 0-d tensor (`fseed`); the first npos in 1..15 arguments of fit positional; "
+        "in a third of the cases every keyword whose value is the documented default is OMITTED; a counted-only stream of calls that raise inside "
+        "fit (no reference-basis row / no rows with neg != pos: outside the property, no verdict); "
         "non-trivial iff some call begins at least one epoch and (a stop is injected or there are >= 2 batches or >= 2 callbacks), or a "
         "constructor case with >= 1 non-None argument; distinct by hash of the case")
 EXTRA_TRUSTED = [
@@ -69,14 +73,19 @@ EXTRA_TRUSTED = [
 ]
 
 KINDS = ("pos", "cplx", "dens")
-NB_CHOICES = [(4, 4), (2, 5), (3, 2), (4, 2), (5, 2), (3, 1), (4, 1), (7, 2), (10, 3), (7, 3), (5, 3), (9, 4)]  # 1..4 batches
+NB_CHOICES = [(4, 4), (2, 5), (3, 2), (4, 2), (5, 2), (3, 1), (4, 1), (7, 2), (10, 3), (7, 3), (5, 3), (9, 4),  # 1..4 batches
+              (1, 1), (1, 3)]  # a single row (N = 1: one batch of one row; batch size = / > N)
 NB_EMPTY = [(0, 1), (0, 2), (0, 3)]  # no rows: zero batches per epoch (positive state, neg_batch_size falsy or = pos_batch_size)
 SLOTS = ("ts", "te", "es", "ee", "bs", "be")  # validation order of LambdaCallback.__init__
 SLOT_NAME = {"ts": "on_train_start", "te": "on_train_end", "es": "on_epoch_start", "ee": "on_epoch_end",
              "bs": "on_batch_start", "be": "on_batch_end"}
 SLOT_ARGS = {"ts": 1, "te": 1, "es": 2, "ee": 2, "bs": 3, "be": 3}  # arguments CallbackList passes (callback_list.py:60-82)
 DISPATCH_FORMS = ("pos", "def", "var")  # callable forms that accept the positional call CallbackList makes
-CB_FORMS = ("list", "tuple", "cblist", "iter")
+CB_FORMS = ("list", "tuple", "cblist", "iter", "cblist_mut")  # cblist_mut: a CallbackList built through its mutation API
+# documented defaults of `fit` (positive_wavefunction.py:194-210, complex_wavefunction.py, density_matrix.py, neural_state.py:500-520): a
+# run with `omit` leaves out every keyword argument whose VALUE is the documented default (the caller relies on the default)
+FIT_DEFAULTS = {"neg_batch_size": None, "k": 1, "progbar": False, "starting_epoch": 1, "time": False, "callbacks": None,
+                "scheduler": None, "scheduler_args": None, "input_bases": None}
 
 
 # ------------------------------------------------------------------ reference generator (independent of model and code)
@@ -335,6 +344,22 @@ def make_container(cb_list, form):
         return tuple(cb_list)
     if form == "cblist":
         return CallbackList(cb_list)
+    if form == "cblist_mut":
+        # the same order reached through append / insert / + / __setitem__ / reverse (callback_list.py:32-58, MutableSequence mixins)
+        if not cb_list:
+            return CallbackList([]) + CallbackList(())
+        out = CallbackList([cb_list[-1]])  # placeholder at index 0, overwritten below
+        out[0] = cb_list[0]
+        rest = list(cb_list[1:])
+        if rest:
+            mid = len(rest) // 2
+            for o in rest[mid:]:
+                out.append(o)
+            for o in reversed(rest[:mid]):
+                out.insert(1, o)
+        out.reverse()
+        out.reverse()
+        return CallbackList([]) + out
     if form == "iter":
         return iter(list(cb_list))
     return list(cb_list)
@@ -351,15 +376,25 @@ def empty_container(form):
     return torch.zeros(0, 2, dtype={"tensor_f32": torch.float32, "tensor_i64": torch.int64, "tensor_u8": torch.uint8}.get(form, torch.double))
 
 
-def make_data(kind, N, rng):
+def make_data(kind, N, rng, noz=False):
+    """`noz` (only the counted abort regime): no row is measured in the reference basis"""
     n = 2
     data = [[rng.randint(0, 1) for _ in range(n)] for _ in range(N)]
     bases = None
     if kind != "pos":
-        assert N >= 1, "no rows: only for the positive state (randint over an empty reference-basis set raises, C07)"
         bases = [[rng.choice("XYZ") for _ in range(n)] for _ in range(N)]
-        bases[rng.randrange(N)] = ["Z"] * n  # at least one reference-basis row (randint needs a non-empty range)
+        if noz:
+            for row in bases:
+                if row == ["Z"] * n:
+                    row[rng.randrange(n)] = rng.choice("XY")
+        else:
+            assert N >= 1, "no rows: only for the positive state (randint over an empty reference-basis set raises, C07)"
+            bases[rng.randrange(N)] = ["Z"] * n  # at least one reference-basis row (randint needs a non-empty range)
     return data, bases
+
+
+def count_z(bases):
+    return sum(1 for row in bases if all(c == "Z" for c in row)) if bases is not None else 0
 
 
 # ------------------------------------------------------------------ one case
@@ -370,7 +405,7 @@ def strip_model_log(mlog):
         if t == "call":
             out.append(["call", en[1], en[2], en[3], en[4]])
         elif t in ("opt", "sched"):  # where the data are shuffled (RNG use) is not part of the event protocol: not compared
-            out.append([t])
+            out.append([t])  # ("sched" entries are projected out of the compared log by the caller: only their number is judged)
     return out
 
 
@@ -388,6 +423,8 @@ def one_case(ctx, case):
 
     if "ctor" in case:
         return ctor_case(ctx, case)
+    if "abort" in case:
+        return abort_case(ctx, case)
     case = as_session(case)
     ctx.current_case = case
     kind, lam, runs = case["kind"], case["lambda"], case["runs"]
@@ -407,6 +444,8 @@ def one_case(ctx, case):
             if i not in objs:
                 specs[i] = obj_spec(case, i)
                 objs[i] = make_callback_spec(hold, i, specs[i])
+    # the data of every call (same stream as before: after the state, call by call); the model is told how many rows are in the reference basis
+    datas = [make_data(kind, run["N"], rng) for run in runs]
     model = None
     if ctx.driver is not None:
         # the model builds each object from its constructor arguments (QV.Train.lambdaInit / subclassObj), restricts the requests to
@@ -419,26 +458,28 @@ def one_case(ctx, case):
             else:
                 mobjs.append([i, {"kind": "subclass", "overrides": [None if f == "none" else fid_of(i, t) for t, f in zip(SLOTS, sp["forms"])]}])
         model = ctx.driver.call("c12.session", stop0=False, objs=mobjs, runs=[
-            {"pre": r["pre"], "start": r["start"], "epochs": r["epochs"], "N": r["N"], "posB": r["B"], "negB": r["neg"],
-             "hasBases": kind != "pos", "callbacks": {"form": r["cb_form"], "items": r["cbs"]}, "timer": r["time"],
+            {"pre": r["pre"], "start": r["start"], "epochs": r["epochs"], "N": r["N"], "nZ": count_z(d[1]), "posB": r["B"], "negB": r["neg"],
+             "hasBases": kind != "pos", "callbacks": {"form": r["cb_form"].replace("cblist_mut", "cblist"), "items": r["cbs"]}, "timer": r["time"],
              "hasSched": r["sched"], "req_cb": [[i, ev] for i, ev in r["inject_cb"]],
-             "req_mid": [[e, b] for e, b in r["inject_mid"] + r.get("inject_pre", [])]} for r in runs])
+             "req_mid": [[e, b] for e, b in r["inject_mid"] + r.get("inject_pre", [])]} for r, d in zip(runs, datas)])
     sess = {"stop": False, "container": None, "container_key": None, "nontriv": False, "sample": None, "fl": fl, "it": it, "optobjs": {}}
     ctx.count(f"calls_per_session={len(runs)}")
     for r_idx, run in enumerate(runs):
         m = None
         if model is not None:
             m = model["runs"][r_idx] if "runs" in model else {"error": model.get("error")}
-        one_call(ctx, {**case, "run": r_idx}, kind, st, rng, hold, objs, run, r_idx, sess, m, specs)
+        one_call(ctx, {**case, "run": r_idx}, kind, st, datas[r_idx], hold, objs, run, r_idx, sess, m, specs)
+        if sess.get("void"):
+            break
     ctx.case({k: case[k] for k in case if k != "dseed"}, nontrivial=sess["nontriv"], sample=sess["sample"])
 
 
-def one_call(ctx, case, kind, st, rng, hold, objs, run, r_idx, sess, m, specs):
+def one_call(ctx, case, kind, st, data_bases, hold, objs, run, r_idx, sess, m, specs):
     start, epochs, N, B, neg = run["start"], run["epochs"], run["N"], run["B"], run["neg"]
     cbs, timer, sched, pre = run["cbs"], run["time"], run["sched"], run["pre"]
     inj_cb, inj_mid, inj_pre = run["inject_cb"], run["inject_mid"], run.get("inject_pre", [])
     nb = -(-N // B)
-    data, bases = make_data(kind, N, rng)
+    data, bases = data_bases
     ordinal = lambda e, b: (e - start) * nb + b  # noqa: E731
     rec = _Recorder(inj_cb, [ordinal(e, b) for e, b in inj_mid], [ordinal(e, b) for e, b in inj_pre])
     active = lambda i, ev: specs[i]["forms"][SLOTS.index(ev[0])] != "none"  # noqa: E731  does callback i run user code for ev?
@@ -454,20 +495,32 @@ def one_call(ctx, case, kind, st, rng, hold, objs, run, r_idx, sess, m, specs):
     sess["container"], sess["container_key"] = cb_arg, key
     if pre is not None:
         st.stop_training = pre
-    # refused stop requests (non-bool values raise ValueError) must leave the flag exactly as it was
+    # "the request persists": an assignment to `stop_training` that RAISES (whatever the exception type) must leave the flag, as read
+    # through the public property, as it was.  Which objects are refused and with which exception is NOT part of the property (a setter
+    # that accepts np.True_ or 1 as a request, or raises TypeError, violates nothing): an accepted assignment is only counted and undone
+    # with a plain bool.  Only the public attribute is read (no private name).  The behaviour is judged by the call that follows (`flag at
+    # entry`, protocol of the run).
     if run.get("bad_stop", True):
-        before_flag = st._stop_training if hasattr(st, "_stop_training") else st.stop_training
-        refused_ok = True
+        before_flag = st.stop_training
+        refused_ok, first_bad = True, None
         for bad in (1, 0, "yes", None, np.True_, np.False_, [True], np.array(True), torch.tensor(False), np.float64(1.0) > 0.5):
+            raised = None
             try:
                 st.stop_training = bad
-                refused_ok = False
-            except ValueError:
-                pass
-            refused_ok = refused_ok and (st.stop_training is before_flag or st.stop_training == before_flag and isinstance(st.stop_training, bool))
-        ctx.oracle("a refused stop request (non-bool) raises ValueError and leaves the flag unchanged", bool(refused_ok), ctx.current_case,
-                   detail={"flag_before": bool(before_flag), "flag_after": repr(st.stop_training)}, sig=f"{kind}/refused-stop-request",
-                   theorem="C12_sticky / C12_stopped_run_is_noop (the flag is only changed by a valid request)")
+            except Exception as e:  # noqa: BLE001  any exception type counts as a refusal
+                raised = type(e).__name__
+            ctx.count(f"stop_training={type(bad).__name__}:{'refused/' + raised if raised else 'accepted'}")
+            if raised is None:
+                st.stop_training = bool(before_flag)  # accepted: no verdict; the caller restores its flag with a plain bool
+                continue
+            now = st.stop_training
+            same = now is before_flag or bool(now) == bool(before_flag)  # what `fit` and every handler read: the truth value
+            if not same and first_bad is None:
+                first_bad = {"assigned": repr(bad), "raised": raised, "flag_before": repr(before_flag), "flag_after": repr(now)}
+            refused_ok = refused_ok and bool(same)
+        ctx.oracle("an assignment to stop_training that raises leaves the flag (public property) unchanged", bool(refused_ok), ctx.current_case,
+                   detail=first_bad, sig=f"{kind}/refused-stop-request",
+                   theorem="(oracle only: the setter is not modelled; C12_sticky / C12_session_stopped take the flag at entry as given)")
     # ---- the option objects of this call
     fl, it = sess.get("fl") or qc.Flags(None), sess.get("it") or qc.Ints(None)
     fam = int_family(getattr(it, "iseed", None))
@@ -504,10 +557,9 @@ def one_call(ctx, case, kind, st, rng, hold, objs, run, r_idx, sess, m, specs):
     orig_cbg = st.compute_batch_gradients
 
     def cbg(*a, **k):  # the point BEFORE the update of the batch in progress
-        kk = rec.grad_calls
         rec.grad_calls += 1
         rec.log.append(["grad"])
-        if kk in rec.inject_pre:
+        if rec.opt_steps in rec.inject_pre:  # ordinal of the batch in progress = optimizer steps made so far (however often this is called per batch)
             st.stop_training = True
         return orig_cbg(*a, **k)
 
@@ -521,6 +573,14 @@ def one_call(ctx, case, kind, st, rng, hold, objs, run, r_idx, sess, m, specs):
     kwargs = {nm: v for nm, v in named[npos:] if nm != "scheduler_args"}
     if kind == "pos":
         kwargs["input_bases"] = None
+    if run.get("omit"):
+        # the caller relies on the documented defaults: every keyword argument whose value IS the default is left out
+        plain = {"neg_batch_size": neg, "k": kk, "progbar": progbar, "starting_epoch": start, "time": timer,
+                 "callbacks": (None if run["cb_form"] == "none" else cb_arg), "scheduler": (True if sched else None), "input_bases": bases_a}
+        for nm, v in plain.items():
+            if nm in kwargs and (v is None if FIT_DEFAULTS[nm] is None else (v is not None and v == FIT_DEFAULTS[nm])):
+                del kwargs[nm]
+                ctx.count(f"default_omitted:{nm}")
     values = [v for _, v in named]
     try:
         # a progress bar (progbar truthy, or -- `progbar is False` in the code -- a falsy object other than the singleton) goes to stderr
@@ -530,11 +590,20 @@ def one_call(ctx, case, kind, st, rng, hold, objs, run, r_idx, sess, m, specs):
         err = f"{type(e).__name__}: {e}"
     finally:
         del st.compute_batch_gradients
+    # the hook on the instance attribute `compute_batch_gradients` is an assumption about the INTERNAL call structure of fit: when a rewrite
+    # bypasses it (calls through the class, inlines it) the planned pre-update injection never fires -- such a call (and the rest of its
+    # session, whose expected flags depend on it) carries no verdict
+    if rec.grad_calls == 0 and rec.opt_steps > 0:
+        ctx.count("gradient_hook_bypassed")
+        if inj_pre:
+            ctx.count("gradient_hook_bypassed:pre-update injection impossible, no verdict")
+            sess["void"] = True
+            return
     # what the Timer (or anything else) prints is not part of the property: only counted, never compared
     printed_lines = sum(1 for ln in buf.getvalue().splitlines() if ln.strip())
     final = {"stop": bool(st.stop_training), "ver": rec.opt_steps, "sched": rec.sched_steps}
     h_after = param_hash(st)
-    if run["cb_form"] in ("list", "tuple", "cblist"):  # frame: the caller's container still holds exactly the callbacks it listed
+    if run["cb_form"] in ("list", "tuple", "cblist", "cblist_mut"):  # frame: the caller's container still holds exactly the callbacks it listed
         ident_of = {id(o): i for i, o in objs.items()}
         after_items = [ident_of.get(id(o), f"foreign:{type(o).__name__}") for o in cb_arg]
         ctx.point("caller's callbacks container after the call", "aux", after_items, cbs, case, exact=True, sig=f"{kind}/fit/callbacks-container-frame")
@@ -654,12 +723,21 @@ def one_call(ctx, case, kind, st, rng, hold, objs, run, r_idx, sess, m, specs):
                case, detail={"steps": len(rec.step_hashes), "first_break": next((k // 2 for k in range(0, len(chain), 2) if chain[k] != chain[k + 1]), None)},
                sig=f"{sig}/param-frame", theorem="C12_param_window, C12_stopped_run_is_noop")
     # each batch window is: batch-start handlers, gradient, optimizer step, batch-end handlers -- also when a stop is raised in between
-    ok_pairs = (len(full_log) == len(rec.log) + rec.grad_calls and rec.grad_calls == rec.opt_steps and
-                all(full_log[k + 1][0] == "opt" for k, en in enumerate(full_log[:-1]) if en[0] == "grad") and
-                (not full_log or full_log[-1][0] != "grad"))
-    ctx.oracle("every gradient computation is followed by its optimizer step (a stop raised in between does not skip the update)", ok_pairs,
-               case, detail={"grad": rec.grad_calls, "opt": rec.opt_steps}, sig=f"{sig}/update-completes",
-               theorem="C12_param_window, C12_stop_in_batch")
+    # (how many gradient calls a batch makes is internal: only "a batch whose gradient computation has begun gets its optimizer step before the
+    # next handler runs" is judged, and nothing when the hook is bypassed)
+    if rec.grad_calls:
+        ok_pairs, pending = True, False
+        for en in full_log:
+            if en[0] == "grad":
+                pending = True
+            elif en[0] == "opt":
+                pending = False
+            elif en[0] == "call" and pending:
+                ok_pairs = False
+        ok_pairs = ok_pairs and not pending
+        ctx.oracle("every gradient computation is followed by its optimizer step (a stop raised in between does not skip the update)", ok_pairs,
+                   case, detail={"grad": rec.grad_calls, "opt": rec.opt_steps}, sig=f"{sig}/update-completes",
+                   theorem="C12_param_window, C12_stop_in_batch")
     if not all_active or not cbs:
         run_flag, ok_seen, k_opt, k_grad = stop0, True, 0, 0
         for en in full_log:
@@ -668,7 +746,7 @@ def one_call(ctx, case, kind, st, rng, hold, objs, run, r_idx, sess, m, specs):
                 if any(i == en[1] and ev == en[2] for i, ev in inj_cb):
                     run_flag = True
             elif en[0] == "grad":
-                run_flag = run_flag or k_grad in rec.inject_pre
+                run_flag = run_flag or k_opt in rec.inject_pre
                 k_grad += 1
             elif en[0] == "opt":
                 run_flag = run_flag or k_opt in rec.inject_mid
@@ -685,16 +763,9 @@ def one_call(ctx, case, kind, st, rng, hold, objs, run, r_idx, sess, m, specs):
     # batches per epoch: every epoch that is not cut short by a stop has ceil(N / pos_batch_size) optimizer steps
     # (epochs are delimited by the scheduler steps, or by the epoch-end calls of a callback that sees every event; without either the
     # total number of optimizer steps above is the only observation)
+    # (the scheduler steps are NOT used as epoch delimiters: the property fixes how often the scheduler is advanced, not where)
     per_epoch = None
-    if sched:
-        per_epoch, cur = [], 0
-        for en in rec.log:
-            if en[0] == "opt":
-                cur += 1
-            elif en[0] == "sched":
-                per_epoch.append(cur)
-                cur = 0
-    elif L:
+    if L:
         per_epoch, cur = [], 0
         for en in rec.log:
             if en[0] == "opt":
@@ -708,7 +779,9 @@ def one_call(ctx, case, kind, st, rng, hold, objs, run, r_idx, sess, m, specs):
         full = per_epoch[:-1] if exp_stop and not stop0 else per_epoch
         ctx.oracle("every uninterrupted epoch has ceil(N / pos_batch_size) batches", all(x == nb for x in full) and len(per_epoch) == begun,
                    case, detail={"per_epoch": per_epoch, "expected": nb}, sig=f"{sig}/batches-per-epoch", theorem="C12_batches_per_epoch")
-    # scheduler position: after the last optimizer step of the epoch and before the epoch-end calls
+    # scheduler POSITION inside the epoch (the code: after the last batch-end, before the epoch-end handlers): neither C12 nor C06 ("advanced
+    # exactly once per epoch") fixes it -- `on_epoch_end(...); scheduler.step()` is a harmless rewrite.  Counted only, never judged; the number
+    # of scheduler steps is judged above (sched-count) and in the `final` point.
     if sched and L:
         ok_pos = True
         for k, en in enumerate(rec.log):
@@ -718,11 +791,12 @@ def one_call(ctx, case, kind, st, rng, hold, objs, run, r_idx, sess, m, specs):
                 if not (before and before[0] == "call" and before[2][0] == ("be" if nb else "es") and after and after[0] == "call"
                         and after[2][0] == "ee" and after[2][1] == before[2][1]):
                     ok_pos = False
-        ctx.oracle("scheduler step sits between the last batch-end and the epoch-end", ok_pos, case,
-                   sig=f"{sig}/sched-position", theorem="C12_scheduler_once_per_epoch")
+        ctx.count(f"sched_position_between_last_batch_end_and_epoch_end={ok_pos}")
+    log_with_sched = rec.log
+    rec.log = [en for en in rec.log if en[0] != "sched"]
     if stop0:
-        ctx.oracle("stopped run is a no-op", rec.log == [] and h_after == h_before and final["stop"], case,
-                   detail={"log": rec.log[:10]}, sig=f"{sig}/noop", theorem="C12_stopped_run_is_noop, C12_session_stopped")
+        ctx.oracle("stopped run is a no-op", log_with_sched == [] and h_after == h_before and final["stop"], case,
+                   detail={"log": log_with_sched[:10]}, sig=f"{sig}/noop", theorem="C12_stopped_run_is_noop, C12_session_stopped")
     ctx.count(f"stdout_lines(time={timer})={min(printed_lines, 3)}")
     # ---------------- correspondence with the model (QV.Train.session; this call's entry)
     if m is not None:
@@ -740,8 +814,11 @@ def one_call(ctx, case, kind, st, rng, hold, objs, run, r_idx, sess, m, specs):
             if not L:
                 ctx.point("calls", "property", [[c[1], c[2]] for c in calls], m["calls"], case, exact=True, sig=f"{sig}/calls",
                           theorem="C12_lambda_dispatch, C12_dispatch_order, C12_callbacks_container")
-        ctx.point("log", "property", rec.log, strip_model_log(m["log"]), case, exact=True, sig=f"{sig}/log",
-                  theorem="C12_param_window, C12_sticky, C12_scheduler_once_per_epoch, C12_batches_per_epoch")
+        mlog = strip_model_log(m["log"])
+        ctx.point("log", "property", rec.log, [en for en in mlog if en[0] != "sched"], case, exact=True, sig=f"{sig}/log",
+                  theorem="C12_param_window, C12_sticky, C12_batches_per_epoch")
+        if sched:  # where the scheduler steps sit relative to the handler calls: informational
+            ctx.count(f"sched_position_as_in_model={log_with_sched == mlog}")
         ctx.point("final", "property", final, {"stop": m["stop"], "ver": m["ver"], "sched": m["sched"]}, case, exact=True,
                   sig=f"{sig}/final", theorem="C12_sticky, C12_param_window, C12_scheduler_once_per_epoch, C12_stopped_run_is_noop, C12_session_stopped")
         if full:
@@ -847,6 +924,14 @@ def make_run(rng, start, epochs, N, B, cbs, timer, sched, icb, imid, pre, ipre=N
     return run
 
 
+def with_omissions(rng, case):
+    """final pass: in a third of the cases every call leaves out the keyword arguments whose value is the documented default"""
+    if "runs" in case and rng.random() < 0.34:
+        for run in case["runs"]:
+            run["omit"] = True
+    return case
+
+
 def gen_objs(rng):
     """callback objects with a SUBSET of the six handlers: LambdaCallback (handlers in the forms CallbackList can call) or
     CallbackBase subclass overriding only some methods; now and then no handler at all (`LambdaCallback()`)"""
@@ -912,9 +997,9 @@ def gen_cases(ctx, thorough):
     """every fit case carries the seeds of its argument-form streams (qc.Flags / qc.Ints); about one case in eight keeps plain Python values"""
     rng = ctx.rng
     for case in _gen_cases(ctx, thorough):
-        if "ctor" not in case and rng.random() < 0.875:
+        if "ctor" not in case and "abort" not in case and rng.random() < 0.875:
             case["fseed"], case["iseed"] = rng.randrange(2 ** 31), rng.randrange(2 ** 31)
-        yield case
+        yield with_omissions(rng, case)
 
 
 def _gen_cases(ctx, thorough):
@@ -962,6 +1047,62 @@ def _gen_cases(ctx, thorough):
         yield {"kind": "pos", "lambda": [True], "objs": gen_objs(rng), "dseed": rng.randrange(1 << 30),
                "runs": gen_session(rng, ncalls=rng.choice([1, 2]), empty_ok=True)}
     yield from gen_ctor_cases(rng, 600 if thorough else 90)
+    yield from gen_abort_cases(rng, 60 if thorough else 12)
+
+
+# ------------------------------------------------------------------ calls that raise inside `fit` (OUTSIDE the property: counted, never judged)
+def gen_abort_cases(rng, count):
+    """SCOPE: `fit` raises after `on_train_start` when `_shuffle_data` has nothing to draw the negative indices from -- bases given but no
+    reference-basis row in the data (complex / density state), or no rows at all with neg_batch_size != pos_batch_size (positive state) -- and
+    the epoch range is not empty.  An aborted call is not a "training run" of the property (like an exception raised by a callback): the
+    stream only COUNTS what happens (exception type, events seen) next to the model's `fitArgs` = .error / `fitArgsAbortLog`
+    (theorem C12_fit_args_abort); it produces no point and no oracle."""
+    for c in range(count):
+        kind = rng.choice(["pos", "cplx", "dens"])
+        start = rng.choice([1, 0, 3])
+        d = rng.choice([-1, 0, 0, 1, 2])
+        if kind == "pos":
+            N, B = 0, rng.choice([1, 2, 3])
+            neg = rng.choice([b for b in (1, 2, 3, 4) if b != B])
+        else:
+            N, B = rng.choice([(1, 1), (2, 2), (3, 2), (5, 2)])
+            neg = rng.choice([None, B, B + 1])
+        yield {"abort": {"kind": kind, "start": start, "epochs": start + d, "N": N, "B": B, "neg": neg,
+                         "cbs": rng.choice([[0], [0, 1], [1, 0, 1]]), "time": rng.random() < 0.5, "sched": rng.random() < 0.5},
+               "dseed": rng.randrange(1 << 30)}
+
+
+def abort_case(ctx, case):
+    import random
+
+    ctx.current_case = case
+    a = case["abort"]
+    rng = random.Random(case["dseed"])
+    st = make_state(a["kind"], rng)
+    data, bases = make_data(a["kind"], a["N"], rng, noz=True)
+    hold = _Holder()
+    rec = _Recorder([], [])
+    hold.rec = rec
+    objs = {i: make_callback_spec(hold, i, {"lam": i % 2 == 0, "forms": ["pos"] * 6}) for i in set(a["cbs"])}
+    err = None
+    kw = {} if bases is None else {"input_bases": np.array(bases)}
+    try:
+        with contextlib.redirect_stdout(io.StringIO()), contextlib.redirect_stderr(io.StringIO()):
+            st.fit(container(data, "tensor_f64") if a["N"] else empty_container("tensor_f64"), epochs=a["epochs"], pos_batch_size=a["B"],
+                   neg_batch_size=a["neg"], starting_epoch=a["start"], time=a["time"], callbacks=[objs[i] for i in a["cbs"]],
+                   optimizer=make_optimizer_class(rec, st), scheduler=(make_scheduler_class(rec) if a["sched"] else None), **kw)
+    except Exception as e:  # noqa: BLE001
+        err = type(e).__name__
+    seen = [[c[1], c[2]] for c in rec.log if c[0] == "call"]
+    ctx.count(f"abort_regime:kind={a['kind']},empty_range={a['epochs'] < a['start']},fit_raised={err}")
+    ctx.count("abort_regime:handler calls when fit raised=" + ("-" if err is None else "train-start only" if all(ev == ["ts"] for _, ev in seen) else "more"))
+    if ctx.driver is not None:
+        m = ctx.driver.call("c12.abort", pre=None, start=a["start"], epochs=a["epochs"], N=a["N"], nZ=count_z(bases), posB=a["B"], negB=a["neg"],
+                            hasBases=a["kind"] != "pos", callbacks={"form": "list", "items": a["cbs"]}, timer=a["time"], hasSched=a["sched"],
+                            req_cb=[], req_mid=[])
+        agree = (m.get("result") == "ok") == (err is None) and (err is None or seen == m.get("abortCalls"))
+        ctx.count(f"abort_regime:model={m.get('result')},agrees_with_implementation={agree}")
+    ctx.case(case, nontrivial=False, sample=None)
 
 
 # ------------------------------------------------------------------ LambdaCallback constructor stream
@@ -1017,17 +1158,20 @@ def ctor_case(ctx, case):
     err, cb = None, None
     try:
         cb = LambdaCallback(**{SLOT_NAME[tag]: f for tag, f in zip(SLOTS, fns)})
-    except (ValueError, TypeError) as e:
-        err = type(e).__name__  # the message text is not part of the property
+    except Exception as e:  # noqa: BLE001
+        err = type(e).__name__  # neither the type nor the message is part of the property
     sig = "lambda/ctor"
     bad = sum(1 for tag, a in zip(SLOTS, args) if a is not None and (a[0] == "nc" or a[2] != SLOT_ARGS[tag]))
     ctx.count(f"ctor:{'ok' if exp is None else exp}")
     ctx.count(f"ctor:offending_args={min(bad, 2)}{'+' if bad > 2 else ''}")
     for a in args:
         ctx.count("ctor:arg=" + ("None" if a is None else "non-callable" if a[0] == "nc" else f"fn/{a[1]}"))
-    ctx.oracle("LambdaCallback(...) raises exactly for the first argument that is not None / not a callable with the event's number of "
-               "parameters (TypeError if not callable, ValueError if the count is wrong)", err == exp, case,
-               detail={"impl": err, "expected": exp}, sig=f"{sig}/validation", theorem="C12_lambda_init")
+    # The property text does not say that unsuitable handlers are rejected (nor how): whether the constructor raises, with which exception
+    # type and for which argument first is only COUNTED (no verdict).  What is judged is what the property names: an accepted object
+    # delivers each event to the caller's function for that slot.
+    ctx.count(f"ctor:rejected={err is not None},reference_rejects={exp is not None}")
+    if err is not None or exp is not None:
+        ctx.count(f"ctor:exception_type impl={err} reference(first offending argument)={exp}")
     if cb is not None and exp is None:
         # behaviour, not identity: calling cb.on_<slot>(event's arguments) runs the caller's function for THAT slot exactly once with
         # those arguments (forms whose signature accepts the positional call) / does nothing and returns None for a slot left None
@@ -1049,16 +1193,17 @@ def ctor_case(ctx, case):
                     ok_slots = False
                 ok_slots = ok_slots and received == [[j, SLOT_ARGS[tag]]]
                 impl_h.append(received[0][0] if received else "?")
-            else:  # kw / kwonly / pkw forms cannot be called positionally with the event's arguments: only their acceptance is judged
+            else:  # kw / kwonly / pkw forms cannot be called positionally with the event's arguments: only their acceptance is counted
                 impl_h.append(j)
-        ctx.oracle("each slot runs the caller's function for THAT slot; a slot left None is a no-op accepting the event's arguments",
-                   ok_slots and ok_noop and isinstance(cb, CallbackBase) and during_ctor == [], case,
+        ctx.count(f"ctor:isinstance(CallbackBase)={isinstance(cb, CallbackBase)}")
+        ctx.oracle("each slot runs the caller's function for THAT slot; a slot left None is a no-op accepting the event's arguments; no "
+                   "handler runs during construction", ok_slots and ok_noop and during_ctor == [], case,
                    detail={"slots_ok": ok_slots, "noop_ok": ok_noop, "calls_during_construction": during_ctor[:4]},
-                   sig=f"{sig}/slots", theorem="C12_lambda_init")
+                   sig=f"{sig}/slots", theorem="C12_lambda_init, C12_lambda_dispatch")
     if ctx.driver is not None:
         m = ctx.driver.call("c12.lambda_init", args=margs)
-        ctx.point("constructor outcome (exception type)", "property", err, m.get("error"), case, exact=True,
-                  sig=f"{sig}/outcome", theorem="C12_lambda_init")
+        ctx.count(f"ctor:model_agrees(rejected-or-not)={(err is not None) == (m.get('error') is not None)}")
+        ctx.count(f"ctor:model_agrees(exception type)={err == m.get('error')}")
         if cb is not None and exp is None and "handlers" in m:
             ctx.point("function run per slot", "property", impl_h, m["handlers"], case, exact=True, sig=f"{sig}/handlers",
                       theorem="C12_lambda_init")
